@@ -72,6 +72,8 @@ func runC14(c *Ctx) {
 	c.Rule("C14.R5", "filter chains iterate once in index order; re-match/re-choose resume at the asking filter", 10)
 	c.Rule("C14.R6", "a recycled filter chain is fully reset: every field written in use is reset on the way into or out of the pool; cursors to 0", 5)
 	defer c14PoolHygiene(c)
+	c.Rule("C14.R7", "an asynchronous terminate never replaces a reply a filter already installed", 1)
+	defer c14SingleReply(c)
 	c.NotDecided = append(c.NotDecided, "what individual filters decide", "filters that write to an upstream by other means than the proxy's upstream request")
 	c.Assumptions = append(c.Assumptions, "the receive phase machine runs on one worker per request (checked structurally by C03.R4)")
 
